@@ -41,20 +41,36 @@ def gen_mem():
     facts["list_head_lazy"] = has(r"if\s*\(\s*0\s*==\s*m_listHead\s*\)\s*\{\s*m_listHead\s*=\s*allocate\s*\(\s*1\s*\)", gh)
     ls = function_body(l, r"void\s+swap\s*\(\s*ThisType\s*&\s*theRHS\s*\)\s*\{", "XalanList::swap")
     facts["list_swap_swaps_manager"] = has(r"swap\s*\(\s*m_memoryManager\s*,\s*theRHS\s*\.\s*m_memoryManager\s*\)", ls)
+    le = function_body(l, r"bool\s+empty\s*\(\s*\)\s*const\s*\{", "XalanList::empty")
+    lz = function_body(l, r"size_type\s+size\s*\(\s*\)\s*const\s*\{", "XalanList::size")
+    # K8 repair: empty() and size() look at m_listHead instead of calling begin()/end() (which create the head node)
+    facts["list_empty_nonallocating"] = (has(r"return\s+m_listHead\s*==\s*0\s*\|\|\s*m_listHead\s*->\s*next\s*==\s*m_listHead\s*;", le)
+                                         and not has(r"\b(begin|end)\s*\(", le)
+                                         and has(r"^\{\s*if\s*\(\s*m_listHead\s*==\s*0\s*\)\s*\{\s*return\s+0\s*;", lz))
+    lc = function_body(l, r"void\s+clear\s*\(\s*\)\s*\{", "XalanList::clear")
+    facts["list_clear_guarded"] = has(r"^\{\s*if\s*\(\s*m_listHead\s*==\s*0\s*\)\s*\{\s*return\s*;", lc)
+    cn = function_body(l, r"Node\s*&\s*constructNode\s*\([^)]*\)\s*\{", "XalanList::constructNode")
+    # K-new-4 repair: the fresh free-list node is terminated before the value is constructed in it
+    facts["list_fresh_node_terminated"] = has(r"m_freeListHeadPtr\s*=\s*allocate\s*\(\s*1\s*\)\s*;\s*m_freeListHeadPtr\s*->\s*next\s*=\s*0\s*;", cn)
     fn = function_body(l, r"void\s+freeNode\s*\(\s*Node\s*&\s*node\s*\)\s*\{", "XalanList::freeNode")
     facts["list_erase_recycles"] = has(r"node\s*\.\s*next\s*=\s*m_freeListHeadPtr\s*;\s*m_freeListHeadPtr\s*=\s*&\s*node\s*;", fn) and not has(r"deallocate", fn)
     # --- XalanMap
     md = function_body(m, r"~XalanMap\s*\(\s*\)\s*\{", "~XalanMap")
-    facts["map_dtor_guard_buckets"] = has(r"doRemoveEntries\s*\(\s*\)\s*;\s*if\s*\(\s*!\s*m_buckets\s*\.\s*empty\s*\(\s*\)\s*\)\s*\{[^}]*m_freeEntries\s*\.\s*begin\s*\(\s*\)", md)
+    # K8 repair: m_freeEntries.begin() only for a free list that has entries (so that it has its head node)
+    facts["map_dtor_guard_buckets"] = has(r"doRemoveEntries\s*\(\s*\)\s*;\s*if\s*\(\s*!\s*m_buckets\s*\.\s*empty\s*\(\s*\)\s*&&\s*!\s*m_freeEntries\s*\.\s*empty\s*\(\s*\)\s*\)\s*\{[^}]*m_freeEntries\s*\.\s*begin\s*\(\s*\)", md)
     facts["map_dtor_frees_values"] = has(r"deallocate\s*\(\s*toRemove\s*->\s*value\s*\)", md)
     mc = function_body(m, r"void\s+clear\s*\(\s*\)\s*\{", "XalanMap::clear")
     facts["map_clear_recycles"] = has(r"^\{\s*doRemoveEntries\s*\(\s*\)\s*;", mc)
     ce = function_body(m, r"iterator\s+doCreateEntry\s*\([^)]*\)\s*\{", "XalanMap::doCreateEntry")
     facts["map_value_before_node"] = has(r"if\s*\(\s*m_freeEntries\s*\.\s*empty\s*\(\s*\)\s*\)\s*\{\s*m_freeEntries\s*\.\s*push_back\s*\(\s*Entry\s*\(\s*allocate\s*\(\s*1\s*\)\s*\)\s*\)\s*;", ce)
+    # K23 repair: the entry is counted, and taken out again when the bucket cannot grow
+    facts["map_bucket_push_guarded"] = has(r"\+\+\s*m_size\s*;\s*try\s*\{\s*m_buckets\s*\[\s*index\s*\]\s*\.\s*push_back\s*\([^;]*;\s*\}\s*catch\s*\(\s*\.\.\.\s*\)\s*\{\s*doRemoveEntry\s*\([^;]*;\s*throw\s*;", ce)
     # --- ArenaAllocator / ArenaBlock
     ad = function_body(a, r"~ArenaAllocator\s*\(\s*\)\s*\{", "~ArenaAllocator")
     ar = function_body(a, r"void\s+reset\s*\(\s*\)\s*\{", "ArenaAllocator::reset")
     facts["arena_dtor_resets"] = has(r"reset\s*\(\s*\)\s*;", ad) and has(r"m_blocks\s*\.\s*begin\s*\(\s*\)", ar) and has(r"m_blocks\s*\.\s*clear\s*\(\s*\)", ar)
+    # K8 repair: reset() does not touch begin()/end() of a block list that was never used
+    facts["arena_reset_guarded"] = has(r"^\{\s*if\s*\(\s*m_blocks\s*\.\s*empty\s*\(\s*\)\s*==\s*false\s*\)\s*\{[^}]*m_blocks\s*\.\s*begin\s*\(\s*\)", ar)
     ab = function_body(a, r"allocateBlock\s*\(\s*\)\s*\{", "ArenaAllocator::allocateBlock")
     facts["arena_create_then_push"] = has(r"m_blocks\s*\.\s*push_back\s*\(\s*ArenaBlockType\s*::\s*create\s*\(", ab)
     bd = function_body(b, r"~ArenaBlock\s*\(\s*\)\s*\{", "~ArenaBlock")
